@@ -15,6 +15,15 @@ odd last digit, carries that add a digit, values that round to zero, generic man
 floats). VERIF_SEED only rotates which digits stand for a class (tie multipliers, generic
 mantissas, which codes fill the quick currency slice); every point of the product is visited for
 every seed.
+
+Two further families:
+* re-format: every ordered pair (A, B) of the seven format types (A == B with other parameters),
+  with and without reading formatted_value between the two set_cell_formatting calls (thorough:
+  also every triple A, B, A): the text must be the rendering under the LAST format, on the live
+  document and after save + reopen (same oracle);
+* decoration invariance: within each set of cases that differ only in decoration (separator,
+  negative style, accounting) the digits read back must be identical ("decorations never change a
+  digit"); this is where a tie rule that depends on the separator shows.
 """
 from __future__ import annotations
 
@@ -112,6 +121,54 @@ def base_values(seed: int):
     return ints + floats
 
 
+def base_powers(base: int):
+    """Every exact power base^k < 10^15 (k >= 1), its negative and its lower neighbour."""
+    out, pw = [], base
+    while pw < 10 ** 15:
+        out += [pw, -pw, pw - 1]
+        pw *= base
+    return out
+
+
+# one parameter set per format type for the re-format family, and a second one for A == B
+REFORMAT_PARAMS = {
+    "number": ({"decimal_places": 2, "show_thousands_separator": False, "negative_style": 0},
+               {"decimal_places": 4, "show_thousands_separator": True, "negative_style": 2}),
+    "currency": ({"currency_code": "EUR", "decimal_places": 2, "show_thousands_separator": False, "negative_style": 0,
+                  "use_accounting_style": True},
+                 {"currency_code": "USD", "decimal_places": 0, "show_thousands_separator": True, "negative_style": 0,
+                  "use_accounting_style": False}),
+    "percentage": ({"decimal_places": 1, "show_thousands_separator": False, "negative_style": 0},
+                   {"decimal_places": 3, "show_thousands_separator": True, "negative_style": 1}),
+    "scientific": ({"decimal_places": 2}, {"decimal_places": 5}),
+    "base": ({"base": 16, "base_places": 0, "base_use_minus_sign": True},
+             {"base": 2, "base_places": 8, "base_use_minus_sign": False}),
+    "fraction": ({"fraction_accuracy": 0xFFFFFFFD}, {"fraction_accuracy": 4}),
+    "rating": ({}, {}),
+}
+FORMAT_TYPES = list(REFORMAT_PARAMS)
+
+
+def reformat_cases(tier: str, seed: int):
+    """[kind, value, params, {"before": [[kind, params], ...], "read_between": bool}]: the cell is given the
+    formats of `before` in order and then (kind, params); it is judged as a cell formatted (kind, params)."""
+    g = _rot("1234", seed)
+    general = [_f(g + ".565"), -_f(g + ".565"), _f("0.004"), -_f("0.004"), _f("2.5"), -_f("0.125"), 12, -7, 0.0, 1000]
+    rating_ok = [0, 3, 4.0, 5]
+    out = []
+    for a in FORMAT_TYPES:
+        for b in FORMAT_TYPES:
+            pa = REFORMAT_PARAMS[a][0]
+            pb = REFORMAT_PARAMS[b][1 if a == b else 0]
+            values = rating_ok if "rating" in (a, b) else general
+            for v in values:
+                for read in (False, True):
+                    out.append([b, v, pb, {"before": [[a, pa]], "read_between": read}])
+                    if tier == "thorough":
+                        out.append([a, v, pa, {"before": [[a, pa], [b, pb]], "read_between": read}])
+    return out
+
+
 # ---------------------------------------------------------------------------------------------
 # the bounded space
 # ---------------------------------------------------------------------------------------------
@@ -124,7 +181,8 @@ def quick_currencies(seed: int):
 
 
 def build_groups(tier: str, seed: int):
-    """-> dict group -> list of cases; a case is [kind, value, params] (small JSON value)."""
+    """-> dict group -> list of cases; a case is [kind, value, params] or, for the re-format family,
+    [kind, value, params, history] (small JSON values)."""
     thorough = tier == "thorough"
     V = value_alphabet(tier, seed)
     groups = {}
@@ -147,9 +205,10 @@ def build_groups(tier: str, seed: int):
     bases = list(range(2, 37)) if thorough else [2, 8, 10, 16, 36]
     groups["base"] = [["base", v, {"base": b, "base_places": bp, "base_use_minus_sign": minus}]
                       for b in bases for bp in range(9) for minus in ((True, False) if b in (2, 8, 16) else (True,))
-                      for v in base_values(seed)]
+                      for v in base_values(seed) + base_powers(b)]
     groups["fraction"] = [["fraction", v, {"fraction_accuracy": a}] for a in ACCURACIES for v in V if abs(v) <= 10 ** 4]
     groups["rating"] = [["rating", v, {}] for v in (0, 1, 2, 3, 4, 5, 0.0, 1.0, 2.0, 3.0, 4.0, 5.0)]
+    groups["reformat"] = reformat_cases(tier, seed)
     return groups
 
 
@@ -169,7 +228,7 @@ def _kwargs(kind, params):
 
 def judge(case, value, text):
     """-> (ident_without_phase, outcome_class, problem-or-None)."""
-    kind, _, params = case
+    kind, _, params = case[:3]
     x = ref.dec(value)
     extra = {}
     if kind in ("number", "percentage", "currency"):
@@ -215,16 +274,47 @@ def _observe(table, r, c):
         return ("exc", type(e).__name__, str(e)[:120])
 
 
+def _decoration_key(case):
+    """Cases with equal keys differ only in decoration (separator, negative style, accounting)."""
+    kind, value, params = case[:3]
+    if kind not in ("number", "percentage", "currency") or len(case) > 3:
+        return None
+    return (kind, type(value).__name__, repr(value), params["decimal_places"], params.get("currency_code"))
+
+
+def _core(case, text):
+    """The digits of a decimal rendering without decoration: (magnitude, decimals shown), or None."""
+    kind, _, params = case[:3]
+    symbol = ref.SYMBOLS.get(params["currency_code"], params["currency_code"] + " ") if kind == "currency" else None
+    try:
+        r = ref.read_decimal(text, symbol=symbol, accounting=bool(params.get("use_accounting_style")),
+                             percent=kind == "percentage", separator=params["show_thousands_separator"],
+                             allow_exponent=params["decimal_places"] is None)
+    except ref.Unreadable:
+        return None
+    return (r["magnitude"], r["shown"] if params["decimal_places"] is not None else None)
+
+
+def _history_text(case):
+    if len(case) < 4:
+        return ""
+    h = case[3]
+    steps = ", then ".join(f"{k} {p}" for k, p in h["before"])
+    return f" [cell first formatted {steps}; formatted_value {'read' if h['read_between'] else 'not read'} in between]"
+
+
 def eval_batch(cases, path):
     """Evaluate a list of cases (one table cell each) live and after save + reopen.
 
-    -> (results, stats): results[i] is a list of (ident, detail) failures of case i. Used by the
-    enumeration (batches of BATCH cases) and by --replay (a batch of one)."""
+    -> (results, stats): results[i] is a list of (ident, detail, ref_index) failures of case i; ref_index is
+    None, or the index of the case of this batch that the failure is relative to (decoration invariance).
+    Used by the enumeration (batches of BATCH cases) and by --replay (a batch of one or two)."""
     n = len(cases)
     ncols = min(BATCH_COLS, max(2, n))
     nrows = max(2, -(-n // ncols))
     results = [[] for _ in cases]
-    stats = {"outcomes": {}, "nontrivial": 0, "reopen_text_differs": 0, "exponent_in_auto": 0, "samples": [], "observed": [], "reopened": 0}
+    stats = {"outcomes": {}, "nontrivial": 0, "reopen_text_differs": 0, "exponent_in_auto": 0, "samples": [], "observed": [],
+             "reopened": 0, "decoration_comparisons": 0}
     # record=True: the sigfig package calls warnings.resetwarnings(), which would re-enable printing
     with warnings.catch_warnings(record=True):
         warnings.simplefilter("ignore")
@@ -233,9 +323,17 @@ def eval_batch(cases, path):
         live = []
         for i, case in enumerate(cases):
             r, c = divmod(i, ncols)
-            kind, value, params = case
+            kind, value, params = case[:3]
             try:
                 table.write(r, c, value)
+                if len(case) > 3:
+                    for k0, p0 in case[3]["before"]:
+                        table.set_cell_formatting(r, c, k0, **_kwargs(k0, p0))
+                        if case[3]["read_between"]:
+                            try:
+                                _ = table.cell(r, c).formatted_value
+                            except Exception:  # noqa: BLE001, S110 - judged by the single-format cases
+                                pass
                 table.set_cell_formatting(r, c, kind, **_kwargs(kind, params))
                 live.append(_observe(table, r, c))
             except Exception as e:  # noqa: BLE001
@@ -245,15 +343,17 @@ def eval_batch(cases, path):
             doc2 = Document(path)
             table2 = doc2.sheets[0].tables[0]
         except Exception as e:  # noqa: BLE001 - the batch cannot be persisted: reported on its first case
-            kind, value, params = cases[0]
+            kind, value, params = cases[0][:3]
             sign, mag = ref.classify(ref.dec(value), None)
             ident = {"format": kind, "sign": sign, "magnitude": mag, "pattern": f"exception-on-save:{type(e).__name__}",
                      "phase": "reopen-only"}
-            results[0].append((ident, f"saving and reopening a table of {n} formatted cells raised {type(e).__name__}: {str(e)[:200]}"))
+            results[0].append((ident, f"saving and reopening a table of {n} formatted cells raised {type(e).__name__}: {str(e)[:200]}", None))
             return results, stats
+        first_of_key = {"live": {}, "reopen": {}}
         for i, case in enumerate(cases):
             r, c = divmod(i, ncols)
-            kind, value, params = case
+            kind, value, params = case[:3]
+            hist = case[3] if len(case) > 3 else None
             again = _observe(table2, r, c)
             stats["observed"].append((live[i], again))
             stats["reopened"] += 1
@@ -271,6 +371,24 @@ def eval_batch(cases, path):
                     shown = obs[2]
                     if bad:
                         ident["pattern"] = bad[0]
+                ref_index = None
+                key = _decoration_key(case)
+                if not bad and key is not None:
+                    # decorations never change a digit: same digits as the first case of this decoration set
+                    core = _core(case, shown)
+                    first = first_of_key[phase].setdefault(key, (i, core, shown))
+                    if first[0] != i:
+                        stats["decoration_comparisons"] += 1
+                        if core != first[1]:
+                            bad = ("decoration-changes-digits",
+                                   f"digits {core} differ from {first[1]} shown as {first[2]!r} for {cases[first[0]][2]} "
+                                   f"(same value, same precision, other decoration)")
+                            ident["pattern"] = bad[0]
+                            ref_index = first[0]
+                            outcome = outcome[:-2] + bad[0]
+                if hist is not None:
+                    ident["after"] = ",".join(k0 for k0, _ in hist["before"])
+                    ident["read_between"] = bool(hist["read_between"])
                 if phase == "live":
                     stats["outcomes"][outcome] = stats["outcomes"].get(outcome, 0) + 1
                     if shown is not None and shown != str(value):
@@ -282,14 +400,15 @@ def eval_batch(cases, path):
                     live_pattern = bad[0] if bad else None
                     if bad:
                         ident["phase"] = "live"
-                        results[i].append((ident, f"{kind} {params} on value {value!r}: displayed {shown!r}: {bad[1]}"))
+                        results[i].append((ident, f"{kind} {params} on value {value!r}{_history_text(case)}: displayed {shown!r}: {bad[1]}",
+                                           ref_index))
                 else:
                     if live[i][0] == "ok" and again[0] == "ok" and live[i][2] != again[2]:
                         stats["reopen_text_differs"] += 1
                     if bad and bad[0] != live_pattern:
                         ident["phase"] = "reopen-only"
-                        results[i].append((ident, f"{kind} {params} on value {value!r} after save+reopen (value read "
-                                                  f"{again[1]!r}): displayed {shown!r}: {bad[1]} (live text was {live[i][2]!r})"))
+                        results[i].append((ident, f"{kind} {params} on value {value!r}{_history_text(case)} after save+reopen (value read "
+                                                  f"{again[1]!r}): displayed {shown!r}: {bad[1]} (live text was {live[i][2]!r})", ref_index))
     return results, stats
 
 
@@ -309,16 +428,18 @@ def work(task):
     path = scratch_file(f"{os.getpid()}")
     results, stats = eval_batch(cases, path)
     for i, (case, fails) in enumerate(zip(cases, results)):
-        for ident, detail in fails:
+        for ident, detail, ref_index in fails:
             replay = {"cases": [case], "index": 0}
             new_identity = json.dumps(ident, sort_keys=True) not in part.failures  # only the first replay is kept
-            if ident["phase"] == "reopen-only" and new_identity:
+            if ref_index is not None:
+                replay = {"cases": [cases[ref_index], case], "index": 1}  # relative to another case of the batch
+            elif ident["phase"] == "reopen-only" and new_identity:
                 # a failure that needs its neighbours (format table of the saved batch) keeps the smallest
                 # of four contexts that reproduces it: alone, with both neighbours, the prefix, the whole batch
                 for a, b in ((i, i + 1), (max(0, i - 1), i + 2), (0, i + 2), (0, len(cases))):
                     sub = cases[a:b]
                     again, _ = eval_batch(sub, path)
-                    if any(i2 == ident for i2, _ in again[i - a]):
+                    if any(i2 == ident for i2, _, _ in again[i - a]):
                         break
                 replay = {"cases": sub, "index": i - a}
             part.fail(ident, detail, replay)
@@ -332,12 +453,18 @@ def work(task):
     part.count(f"cases_{group}", n)
     part.count("nontrivial_cases", stats["nontrivial"])
     part.count("reopen_text_differs", stats["reopen_text_differs"])
+    part.count("decoration_comparisons", stats["decoration_comparisons"])
     part.count("auto_precision_shown_in_exponent_notation", stats["exponent_in_auto"])
     for k, v in stats["outcomes"].items():
         part.outcome(k, v)
     # coverage facts for the non-vacuity floors
-    for kind, value, params in cases:
+    for case in cases:
+        kind, value, params = case[:3]
         x = ref.dec(value)
+        if len(case) > 3:
+            part.count("reformat_pair_" + case[3]["before"][-1][0] + ">" + kind)
+            part.count("reformat_read_between" if case[3]["read_between"] else "reformat_not_read_between")
+            part.count(f"reformat_steps_{len(case[3]['before']) + 1}")
         if kind in ("number", "percentage", "currency") and params["decimal_places"] is not None:
             X = x * (100 if kind == "percentage" else 1)
             q = X.scaleb(params["decimal_places"])
@@ -363,7 +490,7 @@ def replay_fn(payload, _whole):
     head = (f"case {case!r}" + (f" (cell {index} of a batch of {len(cases)})" if len(cases) > 1 else "")
             + f"\n  live: {live[1:]!r}\n  after save+reopen: {again[1:]!r}")
     if fails:
-        return True, head + "\n" + "\n".join(f"  {d}\n  ident={i}" for i, d in fails)
+        return True, head + "\n" + "\n".join(f"  {d}\n  ident={i}" for i, d, _ in fails)
     return False, head + ": displayed text agrees with the value"
 
 
@@ -391,6 +518,13 @@ def main():
               all(c[f"negative_under_style_{s}"] > 0 for s in STYLES))
     run.floor("two's complement wider than 32 bits was rendered", c["twos_complement_wider_than_32_bits"] > 0)
     run.floor(">= 20 distinct outcome classes observed", len(run.outcomes) >= 20)
+    run.floor("re-format family: all 49 ordered pairs of format types executed, with and without an intermediate read"
+              + (", and all triples A,B,A" if args.tier == "thorough" else ""),
+              all(c[f"reformat_pair_{a}>{b}"] > 0 for a in FORMAT_TYPES for b in FORMAT_TYPES)
+              and c["reformat_read_between"] > 0 and c["reformat_read_between"] == c["reformat_not_read_between"]
+              and (args.tier != "thorough" or c["reformat_steps_3"] == c["reformat_steps_2"] > 0))
+    run.floor("decoration invariance: at least 3 of every 4 number and percentage renderings were compared with the first of their decoration set",
+              c["decoration_comparisons"] >= (c["cases_number"] + c["cases_percentage"]) * 2 * 3 // 4)
     run.floor("the currency list of the library has 306 codes and the oracle's symbol table is a subset",
               len(CURRENCIES) == 306 and set(ref.SYMBOLS) <= set(CURRENCIES))
     run.assume("values have at most 15 significant digits and |x| < 10^15 (C01's numeric domain); custom number "
@@ -399,6 +533,8 @@ def main():
                "notation ('1e-06') is accepted there as a decimal literal")
     run.assume("two's complement is read at width max(32, minimal width of the value); a currency is shown with its "
                "CLDR symbol or '<code> '; an improper fraction part ('1 2/2') counts as a misrendering")
+    run.assume("re-format family: one parameter set per format type (a second one for A == B) on a 10-value slice "
+               "(4 values for pairs with rating); longer histories than A,B,A and re-formatting after a reopen are not enumerated")
     if args.tier == "quick":
         run.extra["tier_bound"] = "quick tier: reduced value alphabet, 20 of 306 currency codes x places {0,2,3}, bases {2,8,10,16,36}; that product is enumerated completely"
     cov = {
